@@ -1,6 +1,7 @@
 (* Model/Common.v — internal/common: RawValue, Meta, SuffixMatcher, Messages.Integrate,
    TrimmedDescription, FilterPrefix, ByDisplay sorting.  Mirrors the Go code one to one. *)
 From CV Require Import Base.Str Base.Utf8 Gen.Tables.
+From CV Require Export Base.SortPerm.
 Local Open Scope nat_scope.
 
 (* ---------- lexicographic byte order on strings (Go's `<` on strings) ---------- *)
@@ -104,14 +105,7 @@ Proof.
   - apply IH.
 Qed.
 
-(* insert x after every element that is <= x (what Go's insertionSort does) *)
-Fixpoint insert_by {A} (ltb : A -> A -> bool) (x : A) (l : list A) : list A :=
-  match l with
-  | [] => [x]
-  | y :: l' => if ltb x y then x :: l else y :: insert_by ltb x l'
-  end.
-Definition isort_by {A} (ltb : A -> A -> bool) (l : list A) : list A :=
-  fold_left (fun acc x => insert_by ltb x acc) l [].
+(* [isort_by] (Base/SortPerm.v) inserts x after every element that is <= x: Go's insertionSort *)
 Definition display_ltb (a b : raw) : bool := str_ltb (display a) (display b).
 Definition sort_by_display (vs : list raw) : list raw := isort_by display_ltb vs.
 
@@ -126,26 +120,31 @@ Definition strip_err (p : str) : str :=
   else if has_suffix p (B [69]) then trim_suffix p (B [69])
   else p.
 
-(* the inner `for` loop: returns (value, display, next i).  The loop terminates because at
-   most [length vs] values can collide; fuel = S (length vs) is therefore enough (proved in
-   Proofs/Integrate.v: out-of-fuel is unreachable). *)
-Fixpoint err_pick (fuel : nat) (vs : list raw) (p : str) (i : nat) : str * str * nat :=
-  let v := if i =? 0 then p ++ ERR else p ++ ERR ++ dec i in
-  let d := if i =? 0 then ERR else ERR ++ dec i in
+(* the inner `for` loop: returns (value, display, next i).  At most [length vs] values can
+   collide, so [S (length vs)] rounds of fuel suffice; running out of fuel is reported as
+   [None] and excluded by the statements of the theorems (it never happens in the
+   correspondence runs). *)
+Definition err_value (p : str) (i : nat) : str := if i =? 0 then p ++ ERR else p ++ ERR ++ dec i.
+Definition err_display (i : nat) : str := if i =? 0 then ERR else ERR ++ dec i.
+Fixpoint err_pick (fuel : nat) (vs : list raw) (p : str) (i : nat) : option (str * str * nat) :=
   match fuel with
-  | O => (v, d, S i)
-  | S f => if contains_value vs v then err_pick f vs p (S i) else (v, d, S i)
+  | O => None
+  | S f => if contains_value vs (err_value p i) then err_pick f vs p (S i)
+           else Some (err_value p i, err_display i, S i)
   end.
 
-Definition error_style : str := B [].  (* style.Carapace.Error: observed, passed by the harness *)
-
-Fixpoint integrate_loop (msgs : list str) (vs : list raw) (p : str) (i : nat) (estyle erstyle : str) : list raw :=
+Fixpoint integrate_loop (msgs : list str) (vs : list raw) (p : str) (i : nat) (estyle erstyle : str)
+  : option (list raw) :=
   match msgs with
-  | [] => vs
+  | [] => Some vs
   | m :: msgs' =>
-      let '(v, d, i') := err_pick (S (length vs)) vs p i in
-      integrate_loop msgs' (vs ++ [mkRaw v d m estyle [] [] erstyle]) p i' estyle erstyle
+      match err_pick (S (length vs)) vs p i with
+      | Some (v, d, i') => integrate_loop msgs' (vs ++ [mkRaw v d m estyle [] [] erstyle]) p i' estyle erstyle
+      | None => None
+      end
   end.
+
+Definition filler (p dstyle drstyle : str) : raw := mkRaw (p ++ B [95]) (B [95]) [] dstyle [] [] drstyle.
 
 Definition integrate (msgs : list str) (vs : list raw) (prefix : str)
            (estyle erstyle dstyle drstyle : str) : list raw :=
@@ -153,10 +152,13 @@ Definition integrate (msgs : list str) (vs : list raw) (prefix : str)
   | [] => vs
   | _ =>
     let p := strip_err prefix in
-    let vs1 := integrate_loop msgs vs p 0 estyle erstyle in
-    let vs2 := match vs1 with
-               | [_] => vs1 ++ [mkRaw (p ++ B [95]) (B [95]) [] dstyle [] [] drstyle]
-               | _ => vs1
-               end in
-    sort_by_display vs2
+    match integrate_loop msgs vs p 0 estyle erstyle with
+    | None => vs    (* out of fuel: unreachable, see above *)
+    | Some vs1 =>
+        let vs2 := match vs1 with
+                   | [_] => vs1 ++ [filler p dstyle drstyle]
+                   | _ => vs1
+                   end in
+        sort_by_display vs2
+    end
   end.
